@@ -1,4 +1,4 @@
-(* C03 — integral rings, part B: add, addin (see ProofsInt.v for statements and tactics) *)
+(* C03 — integral rings, part B: add (see ProofsInt.v for statements and tactics) *)
 From Coq Require Import ZArith Bool Lia List.
 From C03 Require Import Model ProofsBase ProofsInt.
 Import ListNotations.
@@ -8,13 +8,6 @@ Ltac Zify.zify_post_hook ::= Z.to_euclidean_division_equations.
 Lemma add_exact sb sg cb p : Add_stmt sb sg cb p.
 Proof.
   unfold Add_stmt, Pre; start Hc Hp sg. all: unfold addZ, add; open_model.
-  all: rewrite (mod_add_small a b p) by lia.
-  all: strip. all: try lia. all: split_all; try lia.
-Qed.
-
-Lemma addin_exact sb sg cb p : Addin_stmt sb sg cb p.
-Proof.
-  unfold Addin_stmt, Pre; start Hc Hp sg. all: unfold addinZ, addin; open_model.
   all: rewrite (mod_add_small a b p) by lia.
   all: strip. all: try lia. all: split_all; try lia.
 Qed.
